@@ -50,6 +50,11 @@ CL_FILES = [
 ]
 
 
+# R10: functions in the transitive caller set of the CSPRNG (ghost tape threaded through them)
+TAPE_FNS = ["get_random", "calculate_random_scalars", "generate_random_secret", "random", "core_proof_gen", "proof_gen",
+            "blind_proof_gen", "core_commit", "commit"]
+
+
 class Undecided(Exception):
     """A tool / anchor / dialect problem: never an alarm (exit 2)."""
 
@@ -76,6 +81,7 @@ def run_extractor(family, deref_lets=("H_i",)):
             for rel, mp in files
         ],
         "deref_lets": list(deref_lets),
+        "tape_fns": TAPE_FNS if family == "bbs" else [],
     }
     os.makedirs(BUILD, exist_ok=True)
     cfgp = os.path.join(BUILD, f"vx_{family}_{os.getpid()}.json")
